@@ -3,6 +3,7 @@
   All theorems: ANY number of threads, ANY programs of Inc / RollingSumAt / GetBuckets / Reset with any requested
   bucket indices (incl. pre-start times), EVERY schedule of the individual atomic steps.
 -/
+import CircuitProofs.Props.C14Tie
 import CircuitModel.Conc.RC
 import CircuitProofs.Lemmas.ConcRC
 namespace CM.Props.C14
